@@ -66,8 +66,37 @@ def parse_sig(sig):
 LT = re.compile(r"'[A-Za-z_][A-Za-z0-9_]*")
 
 
+def strip_projections(t):
+    """`&'a <HashMapRef<'_, K, V, S> as Index<&Q>>::Output` -> `&'a _`: the lifetimes written inside a qualified path are those of the
+    impl header it names, not lifetimes of the value (`-> &Self::Output` for `-> &V`); what the projection stands for is decided by the
+    witness programs"""
+    out = []
+    i = 0
+    while i < len(t):
+        if t[i] == "<" and (i == 0 or not (t[i - 1].isalnum() or t[i - 1] in "_:")):
+            depth = 0
+            j = i
+            while j < len(t):
+                if t[j] == "<":
+                    depth += 1
+                elif t[j] == ">" and t[j - 1] != "-":
+                    depth -= 1
+                    if depth == 0:
+                        break
+                j += 1
+            m = re.match(r">::[A-Za-z_][A-Za-z0-9_]*", t[j:]) if j < len(t) else None
+            if m and " as " in t[i:j]:
+                out.append("_")
+                i = j + m.end()
+                continue
+        out.append(t[i])
+        i += 1
+    return "".join(out)
+
+
 def lifetimes(t):
     t = re.sub(r"dyn [^>)]*\+ 'static", "dyn _", t)
+    t = strip_projections(t)
     return [x for x in LT.findall(t)]
 
 
@@ -97,7 +126,7 @@ def candidates(facts):
             ins, ret = parse_sig(b.sig)
         except AssertionError:
             continue
-        if not lifetimes(ret):
+        if not LT.findall(ret):
             continue
         if not ins or not ins[0].startswith("&") or not any(f.split("::")[-1] in ins[0] for f in FACADES):
             continue  # not a method on a borrowed collection (constructors, deserialize)
